@@ -99,8 +99,20 @@ class Fn:
 
     # -- CFG -----------------------------------------------------------------------------
     def succ(self):
+        """Successors, with statically infeasible edges removed: a switch on a literal constant
+        (`cfg!(..)` lowers to `const true/false`) only goes to the matching target."""
         if self._succ is None:
-            self._succ = [term_targets(b["t"]) for b in self.blocks]
+            out = []
+            for b in self.blocks:
+                t = b["t"]
+                tg = term_targets(t)
+                if t["k"] == "switch":
+                    v = _literal(self, t["d"])
+                    if v is not None:
+                        hit = [x[1] for x in t["v"] if x[0] == v]
+                        tg = hit[:1] if hit else [t["else"]]
+                out.append(tg)
+            self._succ = out
         return self._succ
 
     def pred(self):
@@ -134,11 +146,50 @@ class Fn:
         """Yield (block index, callee dict, args, dest place, target) for each call terminator."""
         for i, b in enumerate(self.blocks):
             t = b["t"]
-            if t["k"] in ("call", "tailcall"):
+            if t["k"] in ("call", "tailcall") and self.live(i):
                 yield i, t["f"], t["a"], t.get("dest"), t.get("to")
+
+    def live(self, bb):
+        """Reachable from the entry over feasible edges (cleanup blocks excluded by construction
+        unless an unwind edge is modelled, which it is not)."""
+        return bb in self.dom()
 
     def __repr__(self):
         return "<Fn %s>" % self.path
+
+
+def _literal(fn, op):
+    """Value of an operand that is a literal constant, directly or through one single-definition
+    local assigned from a literal (never named / generic constants)."""
+    def lit(o):
+        if o[0] == "k" and "uneval" not in o[1] and "param" not in o[1]:
+            v = o[1].get("v")
+            if isinstance(v, bool):
+                return int(v)
+            if isinstance(v, int):
+                return v
+        return None
+    v = lit(op)
+    if v is not None:
+        return v
+    if op[0] in ("cp", "mv") and not op[1][1]:
+        l = op[1][0]
+        if l <= fn.argc:
+            return None
+        n = 0
+        val = None
+        for b in fn.blocks:
+            for st in b["s"]:
+                if st[0] == "=" and st[1][0] == l:
+                    n += 1
+                    if not st[1][1] and st[2][0] == "use":
+                        val = lit(st[2][1])
+            t = b["t"]
+            if t["k"] == "call" and t.get("dest") and t["dest"][0] == l:
+                n += 2
+        if n == 1:
+            return val
+    return None
 
 
 def rel(path):
